@@ -117,7 +117,7 @@ CHECKS = {
             unit("c07-revocation", "revocation", ["zz_verif_c07_test.go"], "^TestVerifC07RevocationCommits$", shards={"quick": 4, "thorough": 4}),
             unit("c20-race-helpers", "internal/common", ["zz_verif_c20_helpers_test.go"], "^TestVerifC20RaceHelpers$", race=True, env={"VERIF_RACE": "1"}),
             unit("c07-seq", "root", ["zz_verif_c07_test.go", "zz_verif_c11_test.go", "zz_verif_c20_test.go"], "^TestVerifC07Sequential$", shards={"quick": 12, "thorough": 16}),
-            unit("c07-volume", "root", ["zz_verif_c07_test.go", "zz_verif_c11_test.go", "zz_verif_c20_test.go"], "^TestVerifC07Volume$", shards={"quick": 6, "thorough": 6}),
+            unit("c07-volume", "root", ["zz_verif_c07_test.go", "zz_verif_c11_test.go", "zz_verif_c20_test.go"], "^TestVerifC07Volume$", shards={"quick": 7, "thorough": 7}),
             unit("c07-conc-cprng", "root", ["zz_verif_c07_test.go", "zz_verif_c11_test.go", "zz_verif_c20_test.go"], "^TestVerifC07ConcurrentCPRNG$", shards={"quick": 8, "thorough": 16},
                  instr=["credential.go", "internal/common/fastrandom.go"], instr_fields={"credential.go": ["nonrevCache"]}),
             unit("c07-conc-cache", "root", ["zz_verif_c07_test.go", "zz_verif_c11_test.go", "zz_verif_c20_test.go"], "^TestVerifC07ConcurrentCache$", shards={"quick": 10, "thorough": 16},
